@@ -285,6 +285,11 @@ func prFields(fds []*ggql.FieldDef) []string {
 
 func prDump(root *ggql.Root) string {
 	var lines []string
+	// the operation roots in force (read through the verif accessor, not through Types())
+	if sch := root.VerifSchema(); sch != nil {
+		lines = append(lines, "operation roots:")
+		lines = append(lines, prFields(sch.Fields())...)
+	}
 	for _, t := range root.Types() {
 		if t.Core() || scTypeID(t.Name()) < len(scCoreTypes) {
 			continue
